@@ -295,7 +295,7 @@ PROPS = {
         "level_text": "Proof: the object-store model of UploadDescriptor / DownloadDescriptor / ListLabels / DeleteLabel refines the map "
                       "repo -> name -> bundle (C08_refines for every operation, C08_history for every history from the empty context, for "
                       "every name, prefix and unicode oracle): get returns the last assignment or not-found (C08_get_last_set, "
-                      "C08_get_after_delete), prefix listings are exact and duplicate-free (C08_list_exact), set/delete change no metadata "
+                      "C08_get_after_delete), prefix listings are exact and duplicate-free (C08_list_exact), DeleteBundle removes exactly the labels last set to the deleted bundle whatever their number (C08_delete_bundle_labels), set/delete change no metadata "
                       "key and no other label, also across repositories whose names are prefixes of each other (C08_label_frame, "
                       "C08_label_frame_labels), every accepted name is afterwards resolved and listed (C08_accepted_resolvable). Path "
                       "templates, the label-name rule, the validation call site and the label store are facts regenerated from the Go "
